@@ -42,34 +42,36 @@ var strFuncs = map[string]LGFunction{
 
 func strByte(L *LState) int {
 	str := L.CheckString(1)
-	start := L.OptInt(2, 1) - 1
-	end := L.OptInt(3, -1)
 	l := len(str)
-	if start < 0 {
-		start = l + start + 1
+	// i defaults to 1, j defaults to i; both are 1-based and may count from the end
+	start := strPosRelat(L.OptInt(2, 1), l)
+	end := strPosRelat(L.OptInt(3, start), l)
+	if start < 1 {
+		start = 1
 	}
-	if end < 0 {
-		end = l + end + 1
+	if end > l {
+		end = l
 	}
-
-	if L.GetTop() == 2 {
-		if start < 0 || start >= l {
-			return 0
-		}
-		L.Push(LNumber(str[start]))
-		return 1
-	}
-
-	start = intMax(start, 0)
-	end = intMin(end, l)
-	if end < 0 || end <= start || start >= l {
+	if start > end {
 		return 0
 	}
 
-	for i := start; i < end; i++ {
-		L.Push(LNumber(str[i]))
+	for i := start; i <= end; i++ {
+		L.Push(LNumber(str[i-1]))
 	}
-	return end - start
+	return end - start + 1
+}
+
+// strPosRelat converts a relative string position: negative means back from
+// the end; a position still before the string becomes 0.
+func strPosRelat(pos, l int) int {
+	if pos < 0 {
+		pos += l + 1
+	}
+	if pos < 0 {
+		return 0
+	}
+	return pos
 }
 
 func strChar(L *LState) int {
